@@ -20,7 +20,8 @@ EXPLANATION = (
     'the client raises an exception carrying the message. R3 every request gets exactly one reply; an unserialisable result '
     'gets the constant error reply; a failing send does not end the loop. R4 _call sends one (name, args, kwargs) request, '
     'then consumes one reply; sequential calls pair in order. Payload equality through the real serialiser is C14; '
-    'concurrent callers are NOT decided.')
+    'concurrent callers are NOT decided.'
+    " Later additions to R2: an exception whose __str__ raises still gets an error reply (server model); objects reached from the failing request's exception are converted to text only inside a try of their own, in process() or in the helper of server.py they are handed to.")
 TECHNIQUE = 'abstract interpretation of client and server on a modelled connection with injected faults'
 
 
